@@ -42,7 +42,8 @@ def budgets(tier: str) -> dict:
 def _lines():
     node = st.sampled_from((1, 2, 3, 0))
     child = st.sampled_from((0, 1))
-    vtype = st.sampled_from((0, 2))
+    # value types inside and outside the per-version tables (47 = V_TEXT is 2.x only; 57+ exists nowhere): a stored value is a stored value
+    vtype = st.sampled_from((0, 2, 0, 2, 47, 57, 24, 99, 255))
     return st.one_of(
         st.sampled_from(("255;255;3;0;3;\n", "255;255;3;0;3;\n", "5;7;3;0;3;\n", "1;255;3;1;3;x\n")),
         st.builds(lambda n, a: f"{n};255;3;{a};6;0\n", node, st.sampled_from((0, 1))),
@@ -68,7 +69,7 @@ def _registry(draw) -> dict:
     for node in draw(st.lists(st.sampled_from((0, 1, 2, 3, 1, 2, 3, 253)), max_size=3, unique=True)):
         children = {}
         for child in draw(st.lists(st.sampled_from((0, 1)), max_size=2, unique=True)):
-            values = draw(st.dictionaries(st.sampled_from(("0", "2")), gen.short_payloads, max_size=2))
+            values = draw(st.dictionaries(st.sampled_from(("0", "2", "47", "57", "99")), gen.short_payloads, max_size=2))
             children[str(child)] = {"child_id": child, "child_type": 6, "description": "", "values": values}
         reg[str(node)] = {
             "node_id": node, "node_type": 17, "protocol_version": "2.0", "sketch_name": "", "sketch_version": "",
@@ -96,6 +97,28 @@ def strategy(tier: str):
             "debug_log": st.sampled_from((False, False, True)),
         }
     )
+
+
+def enumerate_cases(tier: str):
+    # every value type around and beyond the per-version tables: stored from a file, stored by a set, never stored; then requested
+    types = list(range(0, 60)) + [99, 200, 255, 2**31]
+    for version in (None, "1.4", "1.5", "2.0", "2.1", "2.2"):
+        stored = {"1": {"node_id": 1, "node_type": 17, "protocol_version": "2.0", "sketch_name": "", "sketch_version": "", "battery_level": 0, "heartbeat": 0,
+                        "sleeping": False, "reboot": False,
+                        "children": {"0": {"child_id": 0, "child_type": 6, "description": "", "values": {str(t): f"v{t}" for t in types}},
+                                     "1": {"child_id": 1, "child_type": 3, "description": "", "values": {}}}}}
+        ops = [["rx", f"1;0;2;0;{t};\n"] for t in types]
+        ops += [op for t in types for op in (["rx", f"1;1;2;0;{t};\n"], ["rx", f"1;1;1;0;{t};w{t}\n"], ["rx", f"1;1;2;1;{t};\n"])]
+        for mode in ("fresh", "persistent"):
+            yield {"version": version, "metric": True, "tz": "UTC0", "epoch": 1_700_000_000, "registry": stored, "ops": ops, "listen_mode": mode}
+    # every sender id asks for an id, for the time, for the configuration (the answer goes to the asker, not to a fixed address)
+    for version in (None, "1.5", "2.2"):
+        ops = []
+        for node in (0, 1, 12, 200, 254, 255):
+            for child in (255, 0, 7):
+                ops.append(["rx", f"{node};{child};3;0;3;\n"])
+            ops += [["rx", f"{node};255;3;0;1;\n"], ["rx", f"{node};255;3;0;6;0\n"]]
+        yield {"version": version, "metric": False, "tz": "<+0530>-5:30", "epoch": 1_700_000_000, "registry": {}, "ops": ops, "listen_mode": "persistent"}
 
 
 class _ClockShim:
